@@ -297,7 +297,6 @@ func (p *Proxy) Serve(l net.Listener) error {
 			return err
 		}
 		delay = 0
-		log.Debug(context.TODO(), "accepted connection", "address", conn.RemoteAddr().String())
 
 		go p.handleLoop(conn)
 	}
@@ -305,6 +304,9 @@ func (p *Proxy) Serve(l net.Listener) error {
 
 func (p *Proxy) handleLoop(conn net.Conn) {
 	start := time.Now()
+
+	// RemoteAddr may block reading a PROXY protocol header, it must not be called from the accept loop.
+	log.Debug(context.TODO(), "accepted connection", "address", conn.RemoteAddr().String())
 
 	p.connsMu.Lock()
 	p.conns[conn] = struct{}{}
